@@ -247,7 +247,7 @@ func (q request) body() []byte {
 }
 
 func (q request) key() string {
-	return fmt.Sprintf("%s %s %s %v %s %s", q.Method, q.Target, q.Auth, q.Headers, q.BodyB64, q.Feature)
+	return fmt.Sprintf("%s %s %s %v %s %s", q.Method, q.Target, q.Auth, q.Headers, q.BodyB64, q.Variant)
 }
 
 type response struct {
@@ -560,7 +560,18 @@ func requests(thorough bool) []request {
 		}
 	}
 
-	return out
+	// the same request reached from two families is served once
+	seen := map[string]bool{}
+	uniq := out[:0]
+
+	for _, q := range out {
+		if !seen[q.key()] {
+			seen[q.key()] = true
+			uniq = append(uniq, q)
+		}
+	}
+
+	return uniq
 }
 
 // ---------------------------------------------------------------- comparison
